@@ -90,10 +90,13 @@ def projectOneAxis (S : Spec) (m ax : Nat) : Except String Spec :=
   else if oneAxisRefuses m (S.shape.getD ax 1 - 1 : Nat) then .error "up"
   else .ok (S.projectAxis ax m)
 
-/-- the per-axis loop of `project` -/
+/-- the per-axis loop of `project`, run over the *generated* description of the loop: `axisVisits` (the tuples of the
+    loop header in visiting order), `visitDoes` (the test, loop targets bound to the tuple), `visitCall` = the
+    `(n, axis)` handed to `_project_one_axis`.  Which target size meets which axis, and in which order, is therefore read
+    off the source (`Lemmas/ProjArray.lean: projectAxes_eq_range` shows it is "axis k gets ns[k], k = 0, 1, …"). -/
 def projectAxes (S : Spec) (ns sizes : List Nat) : Spec :=
-  (List.range ns.length).foldl
-    (fun o k => if doAxis (ns.getD k 0) (sizes.getD k 0) then o.projectAxis k (ns.getD k 0) else o) S
+  (axisVisits sizes.length ns).foldl
+    (fun o t => if visitDoes ns sizes t then o.projectAxis (visitCall ns sizes t).2 (visitCall ns sizes t).1 else o) S
 
 /-- `Spectrum.project(ns)` -/
 def project (S : Spec) (ns : List Nat) : Except String Spec :=
